@@ -8,7 +8,13 @@ MCBase == { [prog |-> "gen_params", on |-> {}], [prog |-> "gen_params", on |-> {
             [prog |-> "gen_coords", on |-> {}], [prog |-> "gen_coords", on |-> {"split", "coords", "grid"}],
             [prog |-> "gen_seq", on |-> {}],    [prog |-> "gen_seq", on |-> {"macro_file"}] }
 MCRoutes == {"plain", "symdir", "dots", "abs"}
-MCVariants == { [prog |-> b.prog, on |-> b.on, route |-> r] : b \in MCBase, r \in MCRoutes }
+\* the output path occupied by an input of the run: gen_coords -c == -o, gen_params -f == -o (same spelling, via a symbolic
+\* link, via ./sub/../name); plain route only
+MCInoutBase == { [prog |-> "gen_params", on |-> {}], [prog |-> "gen_coords", on |-> {"split", "coords", "grid"}] }
+MCVariants == { [prog |-> b.prog, on |-> b.on, route |-> r, inout |-> "no"] : b \in MCBase, r \in MCRoutes }
+              \cup { [prog |-> b.prog, on |-> b.on, route |-> "plain", inout |-> k] : b \in MCInoutBase, k \in {"same", "link", "dots"} }
+MCInoutInits == { [out |-> TRUE, bk |-> {}, link |-> FALSE], [out |-> TRUE, bk |-> {1}, link |-> FALSE],
+                  [out |-> TRUE, bk |-> {2}, link |-> FALSE] }
 \* non-plain spellings of the output path: fresh output, existing output, existing output + one backup
 MCRouteInits == { [out |-> FALSE, bk |-> {}, link |-> FALSE], [out |-> TRUE, bk |-> {}, link |-> FALSE],
                   [out |-> TRUE, bk |-> {1}, link |-> FALSE] }
@@ -17,7 +23,8 @@ MCInits == [out : BOOLEAN, bk : SUBSET {1, 2, 3}, link : {FALSE}]
 MCTargets1 == {"out"}
 MCNone == {}
 (* history extension: deferred-writer programs, first run fails (mostly inside serialisation), second run in the same process *)
-HVariants == { [prog |-> "gen_params", on |-> {}, route |-> "plain"], [prog |-> "gen_coords", on |-> {}, route |-> "plain"] }
+HVariants == { [prog |-> "gen_params", on |-> {}, route |-> "plain", inout |-> "no"],
+               [prog |-> "gen_coords", on |-> {}, route |-> "plain", inout |-> "no"] }
 HInits == { [out |-> FALSE, bk |-> {}, link |-> FALSE], [out |-> TRUE, bk |-> {}, link |-> FALSE],
             [out |-> TRUE, bk |-> {1}, link |-> FALSE] }
 HCrash1 == { [stage |-> "links", when |-> "before"], [stage |-> "backmap", when |-> "after"],
